@@ -13,7 +13,8 @@ func main() {
 	mon.Main("C20", func(c *mon.Ctx) {
 		c.Rule("gcs.*: random element multisets (0..20000 elements, duplicates, empty element), P in 1..32, M = 784931 or M in [1,2^(P+4)], " +
 			"random SipHash keys; crafted value lists loaded through FromBytes/FromNBytes; sets with N*M > 2^32. " +
-			"basic: chains of generated blocks (all standard script types, OP_RETURN, empty scripts, shared scripts). " +
+			"basic: chains of generated blocks (all standard script types, OP_RETURN, empty scripts, shared scripts, and hostile output / spent scripts: " +
+			"truncated pushes, lone PUSHDATA opcodes, 9999 / 10000 / >10000-byte scripts, every one-byte script, second byte OP_RETURN, odd OP_RETURN payloads). " +
 			"bloom.*: filters from NewFilter / LoadFilter (1..36000 bytes, 0..50 hash functions, tweaks, three update flags), op sequences and " +
 			"transaction graphs watching txids / script data / outpoints. merkle.*: blocks of 1..600 transactions with none/all/single/sparse/dense/" +
 			"run/enumerated matched subsets. distinct = (family, parameters, sizes, leading filter / flag bytes); non-trivial = non-empty set / at least " +
@@ -50,6 +51,9 @@ func main() {
 		c.Require("basic.match.output", 2000)
 		c.Require("basic.match.prevout", 1000)
 		c.Require("basic.match.excluded-opreturn", 50)
+		for _, hk := range hostileKinds {
+			c.Require("basic.script.hostile:"+hk, 20)
+		}
 		c.Require("bloom.add", 10000)
 		c.Require("bloom.query", 10000)
 		c.Require("bloom.tx.relevant", 1000)
